@@ -26,6 +26,7 @@ JOBS = {
 }
 SPEC = {
     "level": "exploration",
+    "level_text": 'Exploration over configurations, histories and schedules: a 250-operation list is fingerprinted in a fresh reference process and replayed under other hash seeds, in shuffled orders with disturbances and rejected inputs first, and from 2-8 threads on a cold ANTLR cache with sys.monitoring yield injection; the evidence reports context switches, cache fills per thread and distinct interleaving signatures actually observed. Interleavings are sampled, not enumerated.',
     "technique": "result-fingerprint log compared across hash seeds, call histories and injected thread schedules (sys.monitoring LINE yield injection + ANTLR cache-fill observer)",
     "rule": ("operation list: ~25 V3000 texts and ~12 V2000 texts (rendered + corpus) x {read, canonicalize, pipeline string, write}, ~25 valid strings x {parse, norm, write}, ~15 invalid strings x parse "
              "(exception type and message are results); sweeps: hash seeds (quick 6 / thorough 40), histories (shuffled order, rejected inputs first, cold+warm, disturbances: random.seed, "
